@@ -1064,6 +1064,7 @@ namespace Pistache::Http
         }
 
         OUT(writeHeaders(writer.headers(), *buf));
+        OUT(writeCookies(writer.cookies(), *buf));
 
         const size_t len = sb.st_size;
 
